@@ -132,8 +132,21 @@ static inline void guard_begin(Out& out, const std::string& kind, const std::str
     static bool installed = false;
     if (!installed) {
         installed = true;
+        // alternate stack: a stack overflow (runaway recursion) must still reach the handler
+        static char altstack[1 << 17];
+        stack_t ss;
+        ss.ss_sp = altstack;
+        ss.ss_flags = 0;
+        ss.ss_size = sizeof altstack;
+        sigaltstack(&ss, NULL);
         int sigs[] = {SIGSEGV, SIGBUS, SIGFPE, SIGABRT, SIGILL, SIGALRM};
-        for (int sg : sigs) signal(sg, guard_handler);
+        for (int sg : sigs) {
+            struct sigaction sa;
+            memset(&sa, 0, sizeof sa);
+            sa.sa_handler = guard_handler;
+            sa.sa_flags = SA_ONSTACK;
+            sigaction(sg, &sa, NULL);
+        }
     }
     g_guard_out = &out;
     g_guard_kind = kind;
@@ -155,6 +168,13 @@ static inline std::string in_child(std::function<void(FILE*)> f, unsigned second
     pid_t pid = fork();
     if (pid == 0) {
         ::close(fd[0]);
+        // the child reports through its exit status: no crash guard of the parent in here
+        g_guard_out = NULL;
+        g_guard_kind.clear();
+        {
+            int sigs[] = {SIGSEGV, SIGBUS, SIGFPE, SIGABRT, SIGILL, SIGALRM};
+            for (int sg : sigs) signal(sg, SIG_DFL);
+        }
         alarm(seconds);
         FILE* o = fdopen(fd[1], "w");
         // silence library diagnostics
